@@ -221,6 +221,73 @@ func (w *mwWorld) groupUse() {
 	w.checkCalls(fmt.Sprintf("Group.Use(%v)", ns), w.env.TakeMWCalls(), ns, want)
 }
 
+// rejectedGroupAdd: Add with a name that is already taken (the same router again, or another router object of that
+// name) panics; it must not have invoked any middleware factory nor changed what the rejected router does.
+func (w *mwWorld) rejectedGroupAdd() {
+	var in []*mwRouter
+	for _, rt := range w.routers {
+		if w.inGroup[rt.name] {
+			in = append(in, rt)
+		}
+	}
+	if len(in) == 0 || len(w.gUse) == 0 {
+		return
+	}
+	taken := ref.Pick(w.c.R, in)
+	victim := taken // the same object again
+	var twin *mwRouter
+	if w.c.R.Bool() { // another router object with the taken name, with a route of its own
+		twin = &mwRouter{name: taken.name, pats: map[string]*mwEntry{}}
+		nb := len(w.env.Builders)
+		twin.r = w.env.NewRouter(taken.name)
+		twin.nf = w.env.NotFoundOf[taken.name].ID
+		for _, b := range w.env.Builders[nb:] {
+			if b.Kind == mon.KOptions && b.Pattern == "" {
+				twin.rootOpt = b.H.ID
+			}
+		}
+		victim = twin
+	}
+	w.env.TakeMWCalls()
+	panicked := false
+	func() {
+		defer func() {
+			if recover() != nil {
+				panicked = true
+			}
+		}()
+		w.group.Add(nil, victim.r)
+	}()
+	calls := w.env.TakeMWCalls()
+	w.log("Group.Add(%s) again -> rejected", taken.name)
+	w.c.Eval()
+	w.c.Class("rejected_group_add")
+	if !panicked {
+		w.fail("Group.Add with a taken name did not panic", nil)
+		return
+	}
+	if len(calls) != 0 {
+		w.fail(fmt.Sprintf("a rejected Group.Add invoked middleware factories %d times (first: %s for method %q on router %q)", len(calls), calls[0].Name, calls[0].Method, calls[0].Router), nil)
+		return
+	}
+	if twin != nil {
+		// the rejected router keeps serving with its own (empty) Use list, also for routes registered afterwards
+		w.handleOn(twin)
+		w.probeRouter(twin)
+	}
+}
+
+// handleOn registers one route directly on rt (used for routers that are not part of the random op mix).
+func (w *mwWorld) handleOn(rt *mwRouter) {
+	pattern := ref.Pick(w.c.R, c09Patterns)
+	h := w.env.NewHnd(mon.KRoute, pattern)
+	regNames, regMW := w.names("r", 1)
+	w.env.TakeMWCalls()
+	nb := len(w.env.Builders)
+	rt.r.Handle(pattern, h, regMW, "GET")
+	w.mirror(rt, pattern, []string{"GET"}, h, regNames, nb)
+}
+
 func (w *mwWorld) groupAdd(rt *mwRouter) {
 	w.env.TakeMWCalls()
 	w.group.Add(mux.NewPathVersion("", "never-"+rt.name), rt.r)
@@ -562,10 +629,12 @@ func runC09(c *Ctx) {
 			if len(w.routers) < 4 {
 				w.newRouter(fmt.Sprintf("r%d", len(w.routers)), r.Bool(), r.Chance(1, 3))
 			}
-		default:
+		case x < 94:
 			if !w.inGroup[rt.name] {
 				w.groupAdd(rt)
 			}
+		default:
+			w.rejectedGroupAdd()
 		}
 		if i%7 == 6 || i == nops-1 {
 			for _, rt := range w.routers {
